@@ -90,12 +90,14 @@ Definition parse_xrange (s : bytes) : option (list constraint) :=
   | _ => None   (* fewer than two parts, or four and more ("unsupported x-range format") *)
   end.
 
-(* parseSingleConstraint after TrimSpace and the forbidden-character check *)
+(* parseSingleConstraint after TrimSpace and the forbidden-character check; the x / X wildcard
+   is looked for among the first three dot-separated components only (major, minor, patch): an x
+   further on (1.0.0-alpha.x) is an ordinary pre-release or build identifier *)
 Definition parse_single_core (c : bytes) : option (list constraint) :=
   if beq c $"*" then Some [($"*", $"*")]
   else if has_prefix $"^" c then parse_caret (skipn 1 c)
   else if has_prefix $"~" c then parse_tilde (skipn 1 c)
-  else if existsb is_x (split_c "."%char c) then parse_xrange c
+  else if existsb is_x (firstn 3 (split_c "."%char c)) then parse_xrange c
   else match first_prefix npm_ops c with
        | Some (op, rest) => Some [(op, trim_space rest)]
        | None => Some [($"=", c)]
